@@ -1,17 +1,20 @@
 import CotengraVerif.Driver.Util
 import CotengraVerif.Model.Flow
+import CotengraVerif.Model.RngFlow
+import CotengraVerif.Model.Gather
 
 namespace Cotengra.Driver.C17
 open Lean Cotengra Cotengra.Driver Cotengra.Flow Cotengra
 
 def boolOf (j : Json) : Except String Bool := j.getBool?
 
-/-- rows: `[[callees], rdGlobal, rdHash]` -/
+/-- rows: `[[callees], rdGlobal, rdHash, rdSched]` -/
 def tableOf (j : Json) : Except String (List Facts) := do
   (← arrOf j).mapM fun r => do
     match ← arrOf r with
-    | [c, g, h] => pure { calls := ← natList c, rdGlobal := ← boolOf g, rdHash := ← boolOf h }
-    | _ => throw "expected [calls, rdGlobal, rdHash]"
+    | [c, g, h, w] =>
+      pure { calls := ← natList c, rdGlobal := ← boolOf g, rdHash := ← boolOf h, rdSched := ← boolOf w }
+    | _ => throw "expected [calls, rdGlobal, rdHash, rdSched]"
 
 /-- op `c17.clean`: the decision procedure of `Props/C17.lean` (`cleanFrom`, `cleanAll`) run on a
     fact table sent by the harness: per entry the verdict, the size of the explored set and the
@@ -34,6 +37,7 @@ def srcOf (s : String) : Except String Src :=
   | "seeded" => pure .seeded
   | "global" => pure .global
   | "hash" => pure .hash
+  | "sched" => pure .sched
   | _ => throw "src"
 
 def demoProg (src : Src) : Prog (List Nat × Nat)
@@ -50,7 +54,8 @@ def draws : Handler := fun j => do
   let seeded ← natList (← field j "seeded")
   let glob ← natList (← field j "global")
   let h ← natOf (← field j "hash")
-  let env : Env (List Nat × Nat) := ⟨([], n), ⟨listTape seeded, 0⟩, ⟨listTape glob, 0⟩, h⟩
+  let sched ← natList (fieldD j "sched" (Json.arr #[]))
+  let env : Env (List Nat × Nat) := ⟨([], n), ⟨listTape seeded, 0⟩, ⟨listTape glob, 0⟩, h, ⟨listTape sched, 0⟩⟩
   match exec (demoProg src) (4 * n + 8) (.call 0) env with
   | some r => pure (jObj [("values", jNats r.store.1), ("seeded_pos", jNat r.seeded.pos),
                           ("global_pos", jNat r.global.pos)])
@@ -63,7 +68,101 @@ def sharesafe : Handler := fun j => do
   let bad := (rows.zipIdx.filter fun (r, _) => !decide (r.2 ≤ r.1)).map (·.2)
   pure (jObj [("safe", jBool (Share.safe rows)), ("bad", jNats bad)])
 
+/-! ### generator-variable data flow -/
+open Cotengra.RFlow in
+partial def exprOf (j : Json) : Except String RExpr := do
+  match ← arrOf j with
+  | tag :: args =>
+    match (← tag.getStr?), args with
+    | "var", [x] => pure (.var (← natOf x))
+    | "none", [] => pure .none
+    | "global", [] => pure .globalMod
+    | "const", [] => pure .const
+    | "getRng", [e] => pure (.getRng (← exprOf e))
+    | "draw", [e] => pure (.draw (← exprOf e))
+    | "or", [a, b] => pure (.orElse (← exprOf a) (← exprOf b))
+    | "choice", [a, b] => pure (.choice (← exprOf a) (← exprOf b))
+    | "both", [a, b] => pure (.both (← exprOf a) (← exprOf b))
+    | t, _ => throw s!"bad expression {t}"
+  | [] => throw "empty expression"
+
+open Cotengra.RFlow in
+partial def stmtOf (j : Json) : Except String RStmt := do
+  match ← arrOf j with
+  | tag :: args =>
+    match (← tag.getStr?), args with
+    | "skip", [] => pure .skip
+    | "assign", [x, e] => pure (.assign (← natOf x) (← exprOf e))
+    | "use", [k, st, e] => pure (.use (← natOf k) (← boolOf st) (← exprOf e))
+    | "seq", [a, b] => pure (.seq (← stmtOf a) (← stmtOf b))
+    | "ite", [a, b] => pure (.ite (← stmtOf a) (← stmtOf b))
+    | "iteNone", [x, a, b] => pure (.iteNone (← natOf x) (← stmtOf a) (← stmtOf b))
+    | "iteTruthy", [x, a, b] => pure (.iteTruthy (← natOf x) (← stmtOf a) (← stmtOf b))
+    | "loop", [b] => pure (.loop (← stmtOf b))
+    | "brk", [] => pure .brk
+    | "ret", [] => pure .ret
+    | t, _ => throw s!"bad statement {t}"
+  | [] => throw "empty statement"
+
+/-- op `c17.rngflow`: `RFlow.Skeleton.badSinks` (the analysis `rng_dataflow_seeded` evaluates and
+    `analyse_sound` is about) on a list of skeletons sent by the harness -/
+def rngflow : Handler := fun j => do
+  let sks ← arrOf (← field j "skeletons")
+  let rows ← sks.mapM fun sk => do
+    let k : RFlow.Skeleton := ⟨← natOf (← field sk "nvars"), ← natList (← field sk "attrs"),
+                               ← stmtOf (← field sk "body")⟩
+    pure (jObj [("bad", jNats k.badSinks), ("ok", jBool k.ok)])
+  pure (jObj [("results", jArr rows)])
+
+/-! ### gathering from a pool -/
+open Cotengra.Gather in
+/-- op `c17.gather`: one restart round of the forest on real data: `scores[i]` = (rank of the)
+    score of the tree returned by task `i` (submission order), `order` = the order in which the
+    pool completed the tasks.  Returns the task indices in the order of the sorted forest
+    (`stableSort score (gather mode results order)`), and the tasks whose trees become the
+    parents of the next round's saplings (`cycleTake (take keep sorted) numTrees`). -/
+def gatherOp : Handler := fun j => do
+  let scores ← natList (← field j "scores")
+  let order ← natList (← field j "order")
+  let keep ← natOf (← field j "keep")
+  let numTrees ← natOf (← field j "num_trees")
+  let mode ← match ← (← field j "mode").getStr? with
+    | "submission" => pure Mode.submission
+    | "completion" => pure Mode.completion
+    | _ => throw "mode"
+  let results : List (Nat × Nat) := scores.zipIdx.map fun (s, i) => (i, s)
+  let sorted := stableSort (·.2) (gather mode results order)
+  pure (jObj [("sorted", jNats (sorted.map (·.1))),
+              ("parents", jNats ((cycleTake (sorted.take keep) numTrees).map (·.1))),
+              ("valid", jBool (validOrder scores.length order))])
+
+/-! ### get_rng -/
+open Cotengra.GetRng in
+/-- op `c17.getrng`: `drawsVia` -- the values drawn through `get_rng(arg)`, the position of the
+    global generator afterwards and, for a shared instance, the position of the caller's generator -/
+def getrng : Handler := fun j => do
+  let kind ← (← field j "kind").getStr?
+  let n ← natOf (← field j "n")
+  let seeded ← natList (← field j "seeded")
+  let glob ← natList (← field j "global")
+  -- the tape of `random.Random(seed)` is supplied by the harness (CPython's generator is trusted):
+  -- `mk` ignores the seed and returns that tape
+  let mk : Nat → Nat → Nat := fun _ => listTape seeded
+  let arg ← match kind with
+    | "none" => pure SeedArg.none
+    | "int" => pure (SeedArg.int 0)
+    | "instance" => pure (SeedArg.inst ⟨listTape seeded, 0⟩)
+    | "module" => pure SeedArg.globalMod
+    | "unsupported" => pure SeedArg.unsupported
+    | _ => throw "kind"
+  match drawsVia mk arg ⟨listTape glob, 0⟩ n with
+  | none => pure (jObj [("error", jStr "TypeError"), ("values", Json.null)])
+  | some (vs, g, inst) =>
+    pure (jObj [("values", jNats vs), ("global_pos", jNat g.pos),
+                ("instance_pos", match inst with | some i => jNat i.pos | none => Json.null)])
+
 def handlers : List (String × Handler) :=
-  [("c17.clean", clean), ("c17.draws", draws), ("c17.sharesafe", sharesafe)]
+  [("c17.clean", clean), ("c17.draws", draws), ("c17.sharesafe", sharesafe), ("c17.rngflow", rngflow),
+   ("c17.gather", gatherOp), ("c17.getrng", getrng)]
 
 end Cotengra.Driver.C17
